@@ -78,6 +78,30 @@ class Extractor:
         self.transparent = transparent
         self.passthrough = passthrough   # call that returns one of its args unchanged -> index of that arg
 
+    def _arm_checks_only(self, arm):
+        b = arm["body"]
+        for st in stmts_of(b):
+            st = unsemi(st)
+            if st.get("k") == "let":
+                init = st.get("init")
+                if init is None:
+                    return False
+                i2 = strip_try(init)
+                if i2.get("k") == "match" and all(a["body"].get("ty") == "!" or peel(peel_block(a["body"])).get("k") in ("mcall", "local", "field") for a in i2["arms"]):
+                    continue
+                if i2.get("k") in ("mcall", "tuple", "local") or self.transparent(i2):
+                    continue
+                return False
+            s2 = strip_try(st)
+            if self.transparent(s2) or (s2.get("k") == "if" and "else" not in s2 and s2["then"].get("ty") == "!"):
+                continue
+            if s2.get("k") == "blockexpr" and not stmts_of(s2):
+                continue
+            if s2.get("k") == "tuple" and not s2["es"]:
+                continue
+            return False
+        return True
+
     def ev(self, n, env, depth=0):
         if depth > 30:
             raise Opaque(n, "too deep")
@@ -136,6 +160,10 @@ class Extractor:
                         raise Opaque(s_, "destructuring let")
                 elif self.transparent(strip_try(s_)):
                     continue
+                elif s_.get("k") == "if" and "else" not in s_ and s_["then"].get("ty") == "!":
+                    continue  # a guard that only rejects (`if bad { report; return Err }`) does not change the value built
+                elif s_.get("k") == "match" and all(self._arm_checks_only(a) for a in s_["arms"]):
+                    continue  # a dispatch whose arms only perform checks
                 else:
                     raise Opaque(s_, "statement `%s`" % show(s_)[:60])
             if "tail" in n["b"]:
